@@ -51,6 +51,9 @@ func wtGen(seed uint64, tier string) {
 		proto.Reply("wt %d -3 sig 0", t)
 	}
 	proto.Reply("wt 40 -3 sig 2")
+	// more earlier timed-out calls than any fixed pool of helpers has room for
+	proto.Reply("wt 5 -1 sig 70")
+	proto.Reply("wt 3000 60 bcast 70")
 	// several concurrent callers on one condition variable: one Broadcast, or one Signal per caller
 	proto.Reply("wt 3000 -4 bcast 0")
 	proto.Reply("wt 3000 -5 sig 0")
